@@ -366,10 +366,18 @@ Proof.
   destruct (running s2); auto. destruct e; auto.
 Qed.
 
+Lemma external_inv : forall s k b, Inv s -> Inv (external s k b).
+Proof.
+  intros s k b HI. unfold external. destruct (exists_ (fs s) k).
+  { apply emit_safe; auto. intros; discriminate. }
+  repeat (apply emit_safe; [ | reflexivity | intros; discriminate]). exact HI.
+Qed.
+
 Lemma step_inv : forall s e, Inv s -> Inv (step c s e).
 Proof.
-  intros s e HI. unfold step. destruct (running s) eqn:R; simpl; auto.
-  destruct e as [m t starved | t | | | ].
+  intros s e HI. unfold step.
+  destruct e as [m t starved | t | | | | k b]; try (apply external_inv; exact HI);
+    (destruct (running s) eqn:R; simpl; auto).
   - set (s1 := if needs_rotation c s t then update_file c s t else s).
     assert (H1 : Inv s1) by (unfold s1; destruct (needs_rotation c s t); auto; apply update_file_inv; auto).
     destruct (running s1) eqn:R1; simpl; auto.
